@@ -198,19 +198,26 @@ Print Assumptions c12_read_and_write_values_agree.
 
 (** * Every exported method of sqlgen.DB, by name
 
-    [Gen.DbMethods.db_methods] is extracted from sqlgen/*.go of the tree under test on every run (go/ast,
-    tools/gensqlmethods): the exported methods of DB with the kind of database call each can reach
-    (query, exec, begin).  [call] (Sql/Methods.v) has one constructor per method and [run_call] says what it
+    The exported methods of DB with the kind of database call each can reach (query, exec, begin) are extracted
+    from sqlgen/*.go of the tree under test on every run (go/ast; [Gen.DbMethods.db_methods] is the committed
+    snapshot).  [call] (Sql/Methods.v) has one constructor per method and [run_call] says what it
     sends: the row-level methods through [run], FullScanQuery with its options rewrite, BaseQuery's EXPLAIN on
     a WithPanicOnNoIndex handle, and the methods that only derive handles and contexts. *)
 
-(** Every exported method found in the source is a constructor of [call] whose kind of access in the model
-    is the one the source can reach: a method added to DB, or an existing one that starts to send another
-    kind of statement, makes this theorem fail ("method outside the model") instead of passing unnoticed. *)
+(** For any table of exported methods the evaluator accepts -- every run extracts the table of its own tree
+    (go/ast, pkg/sqlh/methods.go) and evaluates [methods_covered] on it; a table it does not accept is reported
+    as "method outside the model" --: every extracted method that can reach a database/sql call is a constructor
+    of [call] with that kind of access (a method added to DB that reaches the database, or an existing one that
+    starts to send another kind of statement, is not accepted), every constructor of [call] is an extracted
+    method, and the extracted methods without a case in the model reach no database call at all (an accessor
+    cannot send a statement; they are listed in the histogram, not an error). *)
 Theorem c12_every_exported_method_is_modelled :
-  db_methods_problem = false /\
-  forall m a, In (m, a) db_methods -> (exists cl, call_name cl = m) /\ access_of m = a.
-Proof. exact every_exported_method_modelled_and_extracted. Qed.
+  forall gen,
+    methods_covered gen = true ->
+    (forall m a, In (m, a) gen -> a <> (false, false, false) -> (exists cl, call_name cl = m) /\ access_of m = a)
+    /\ (forall cl, In (call_name cl) (map fst gen))
+    /\ (forall m, In m (methods_without_access gen) -> In (m, (false, false, false)) gen).
+Proof. exact covered_table_is_modelled. Qed.
 Print Assumptions c12_every_exported_method_is_modelled.
 
 (** Whatever any of these methods sends -- the EXPLAIN of a statement included -- is confined to every
@@ -356,8 +363,16 @@ Example ex_foreign_shard_row :
      = [(0, []); (1, [[("id", DInt 1); ("data", DNull)]])].
 Proof. repeat split; vm_compute; reflexivity. Qed.
 
-Example ex_table_nonempty : List.length db_methods = 18 /\ In ("UpsertRows", (false, true, true)) db_methods.
-Proof. split; [reflexivity|vm_compute; tauto]. Qed.
+(** The committed snapshot of the table is accepted; so is one with an accessor added; one with a method that
+    writes without a case in the model, or with a method whose kind changed, is not. *)
+Example ex_tables :
+  methods_covered db_methods = true
+  /\ methods_covered (("ShardLimit", (false, false, false)) :: db_methods) = true
+  /\ methods_without_access (("ShardLimit", (false, false, false)) :: db_methods) = ["ShardLimit"]
+  /\ methods_covered (("DeleteAll", (false, true, false)) :: db_methods) = false
+  /\ methods_outside (("DeleteAll", (false, true, false)) :: db_methods) = ["DeleteAll"]
+  /\ methods_outside (("HasTx", (true, false, false)) :: List.filter (fun ma => negb (String.eqb (fst ma) "HasTx")) db_methods) = ["HasTx"].
+Proof. repeat split; vm_compute; reflexivity. Qed.
 
 Example ex_mixed_batch :
   run_batched_multi ex_users
